@@ -92,7 +92,10 @@ def generate(prop, seed, tier):
     variants = [dict(tz="UTC", renders={n: "aware-utc" for n in names}, fresh_render="aware-utc")]
     for _ in range(3 if tier == "quick" else 5):
         tz = rng.choice([zone, zone, rng.choice(ZONES)])
-        style = rng.choice(["all-naive", "mixed", "mixed", "all-aware", "file"])
+        style = rng.choice(["all-naive", "mixed", "mixed", "all-aware", "file", "same-zone"])
+        # (same-zone: every time is aware and carries the very same DST-observing tzinfo object - the zone around
+        #  whose transition the instants were placed; Python then compares wall-clock fields only)
+        zname = zone if zone != "UTC" else rng.choice(["America/New_York", "Europe/London", "Australia/Lord_Howe"])
         renders = {}
         for n in names:
             if style == "all-naive":
@@ -101,9 +104,13 @@ def generate(prop, seed, tier):
                 renders[n] = rng.choice(["file", "file", "naive-local"])
             elif style == "all-aware":
                 renders[n] = rng.choice(AWARE)
+            elif style == "same-zone":
+                renders[n] = ["zone", zname] if rng.random() < 0.85 else rng.choice(AWARE)
             else:
                 renders[n] = rng.choice(["naive-local", "file", rng.choice(AWARE)])
         fr = rng.choice(["naive-local", rng.choice(AWARE)])
+        if style == "same-zone" and rng.random() < 0.7:
+            fr = ["zone", zname]
         variants.append(dict(tz=tz, renders=renders, fresh_render=fr))
     desc["variants"] = variants
     # the history prefix runs with aware-utc everywhere (any legal form would do)
